@@ -21,13 +21,14 @@ def main():
     if '--props' in sys.argv:
         props = sys.argv[sys.argv.index('--props') + 1].split(',')
     skip_confirm = '--skip-confirm' in sys.argv
+    ks = sys.argv[sys.argv.index('--as') + 1] if '--as' in sys.argv else k   # number under which the seed is stored in /verif/seeded
     wt = '/tmp/seed/%s' % pid
     out = '%s/out' % wt
     patch = '%s/patch%s.diff' % (out, k)
     meta = json.load(open('%s/meta%s.json' % (out, k)))
-    prev_meta = '%s/seeded/%s-%s/meta.json' % (V, pid, k)
+    prev_meta = '%s/seeded/%s-%s/meta.json' % (V, pid, ks)
     prev = json.load(open(prev_meta)) if (skip_confirm and os.path.exists(prev_meta)) else {}
-    rec = {'seed': '%s-%s' % (pid, k), 'property': pid, 'what_breaks': meta.get('what_breaks'), 'needs_to_manifest': meta.get('needs_to_manifest'), 'ran': []}
+    rec = {'seed': '%s-%s' % (pid, ks), 'property': pid, 'what_breaks': meta.get('what_breaks'), 'needs_to_manifest': meta.get('needs_to_manifest'), 'ran': []}
     for kk in ('confirmed', 'demo_clean_rc', 'demo_patched_rc', 'tests_with_patch', 'demo_cmd'):
         if kk in prev:
             rec[kk] = prev[kk]
@@ -75,12 +76,12 @@ def main():
         rec['confirmed'] = (rc0 == 0 and rc1 != 0 and rec['tests_with_patch'])
         rec['ran'].append('scratch worktree %s: demo on clean sources rc=%s; git apply; cmake build + ctest (10 tests) ; demo rc=%s' % (wt, rc0, rc1))
     # keep
-    sd = '%s/seeded/%s-%s' % (V, pid, k)
+    sd = '%s/seeded/%s-%s' % (V, pid, ks)
     os.makedirs(sd, exist_ok=True)
     shutil.copy(patch, sd + '/patch.diff')
     shutil.copy('%s/demo%s.c' % (out, k), sd + '/demo.c')
     # checks against a patched copy
-    run = '/tmp/seedrun/%s-%s' % (pid, k)
+    run = '/tmp/seedrun/%s-%s' % (pid, ks)
     shutil.rmtree(run, ignore_errors=True)
     os.makedirs(run + '/repo')
     sh('cp -r /repo/src /repo/include %s/repo/' % run)
